@@ -75,16 +75,16 @@ package plugins
 // output type and every argument type, by Type.Equals) — so it evaluates as it did on the sending side — and when the
 // name or the signature is unknown the predicate is rejected (the flag handed back becomes false). Expressions that
 // are not function calls pass through unchanged.
-//@ spec matches(d physical.FunctionDescriptor, r physical.FunctionDescriptor) bool = len(d.ArgumentTypes) == len(r.ArgumentTypes) && d.Strict == r.Strict && d.OutputType.Equals(r.OutputType) && forall(q, 0, len(d.ArgumentTypes), d.ArgumentTypes[q].Equals(r.ArgumentTypes[q]))
+//@ spec sigMatches(d physical.FunctionDescriptor, r physical.FunctionDescriptor) bool = len(d.ArgumentTypes) == len(r.ArgumentTypes) && d.Strict == r.Strict && d.OutputType.Equals(r.OutputType) && forall(q, 0, len(d.ArgumentTypes), d.ArgumentTypes[q].Equals(r.ArgumentTypes[q]))
 //@ func RepopulatePhysicalExpressionFunctions$lit1
 //@   requires call: expr.ExpressionType == 2 ==> expr.FunctionCall != nil
-//@   loop 1 invariant nomatch: forall(j, 0, $k, !matches(details.Descriptors[j], receivedDescriptor))
+//@   loop 1 invariant nomatch: forall(j, 0, $k, !sigMatches(details.Descriptors[j], receivedDescriptor))
 //@   loop 2 invariant prefix: 0 <= $k && $k <= len(descriptor.ArgumentTypes) && forall(q, 0, $k, descriptor.ArgumentTypes[q].Equals(receivedDescriptor.ArgumentTypes[q]))
 //@   ensures passthrough: expr.ExpressionType != 2 ==> same(result, expr) && outOk == old(outOk)
-//@   ensures rejected: expr.ExpressionType == 2 && ok && forall(j, 0, len(details.Descriptors), !matches(details.Descriptors[j], receivedDescriptor)) ==> !outOk
+//@   ensures rejected: expr.ExpressionType == 2 && ok && forall(j, 0, len(details.Descriptors), !sigMatches(details.Descriptors[j], receivedDescriptor)) ==> !outOk
 //@   ensures unknown: expr.ExpressionType == 2 && !ok ==> !outOk
 //@   ensures sticky: !old(outOk) ==> !outOk
-//@   ensures chosen: expr.ExpressionType == 2 && old(outOk) && outOk ==> exists(j, 0, len(details.Descriptors), matches(details.Descriptors[j], receivedDescriptor))
+//@   ensures chosen: expr.ExpressionType == 2 && old(outOk) && outOk ==> exists(j, 0, len(details.Descriptors), sigMatches(details.Descriptors[j], receivedDescriptor))
 
 // C26 round trip: penc determines the carried value up to the zone of a Time — two values carried by one message are
 // equal component by component (veq). With NativeValueToProto's and ToNativeValue's contracts:
